@@ -465,4 +465,34 @@ theorem C02_walk_generated (D : Desc) (i : Nat) :
     cmdByIndex D.groups i = Gen.get_command_by_index D i ∧ disabledByIndex D.groups i = Gen.is_command_disable D i :=
   ⟨cmdByIndex_generated D i, disabledByIndex_generated D i⟩
 
+/-- **the `=?` form, composed**: once a name followed by `=` has resolved to entry `j` as a WRITE request
+(`C02_request_resolves`), the bytes `?` and LF make three calls — one to enter argument collection, one that reads the `?`
+as the very first argument byte and turns the request into TEST (possible because entry `j` has a test handler or
+variables and is not an implicit-write command), one that reads the LF — after which the TEST response of entry `j` is
+started and nothing of the line is left in the input -/
+theorem C02_test_form (D : Desc) (tmpl : SvcIn) (s : St) (j : Nat) (rest : List Byte)
+    (hs : s.state = .commandFound) (ht : s.cmdType = .write) (hj : s.cmd = some j)
+    (hcan : ((D.cmdD (some j)).hasTest || ((D.cmdD (some j)).vars.isSome && (D.cmdD (some j)).varNum > 0)) = true)
+    (himp : (D.cmdD (some j)).implicitWrite = false) :
+    ∃ s2 : St, s2.cmd = some j ∧ s2.cmdType = .test ∧ s2.currentChar = 10 ∧
+      feed D tmpl 3 s (63 :: 10 :: rest) = (startFormatTest D s2 .cmd, rest) := by
+  have d := (C02_dispatch D s { tmpl with rd := some 63 } hs).2.2.1 ht
+  generalize hs1 : (commandService D s { tmpl with rd := some 63 }).1 = s1 at d
+  obtain ⟨d1, d2, d3, d4⟩ := d
+  have t := C02_suffix_test D s1 { tmpl with rd := some 63 } d1 rfl d4 (by rw [d2, hj]; exact hcan) (by rw [d2, hj]; exact himp)
+  generalize hs2 : (commandService D s1 { tmpl with rd := some 63 }).1 = s2 at t
+  obtain ⟨t1, t2, t3⟩ := t
+  refine ⟨{ s2 with currentChar := 10, state := .waitTestAck, log := s2.log ++ [.rd (some 10)] }, ?_, ?_, rfl, ?_⟩
+  · simp [t3, d2, hj]
+  · simp [t2]
+  · have r0 : ¬ Reading s.state := by rw [hs]; decide
+    have r1 : Reading s1.state := by rw [d1]; decide
+    have r2 : Reading s2.state := by rw [t1]; decide
+    simp only [feed, r0, r1, r2, if_true, if_false, List.head?_cons, List.tail_cons, hs1, hs2]
+    congr 1
+    unfold commandService waitTestAcknowledge readCmdChar
+    have e10 : toUpper 10 = 10 := by decide
+    simp [t1, St.emit, e10]
+
+
 end Cat
